@@ -471,6 +471,25 @@ func c01Oracle(s *sim, op Op, idx int) {
 	if !s.alive {
 		return
 	}
+	// an accepted proposed header vouches for its parent with its previous-commit proof:
+	// that certificate must exceed two thirds for exactly (h-1, proof round, parent hash)
+	for ; s.c01PHSeen < len(s.phLog); s.c01PHSeen++ {
+		e := s.phLog[s.c01PHSeen]
+		h := e.PH.Header.Height
+		if e.Res != tmconsensus.HandleProposedHeaderAccepted || h <= s.w.init {
+			continue
+		}
+		set := s.setFor(h - 1)
+		pcp := e.PH.Header.PrevCommitProof
+		parent := string(e.PH.Header.PrevBlockHash)
+		ok, _ := validSigners(set, precommitBytes(h-1, pcp.Round, parent), pcp.Proofs[parent])
+		s.label("accepted-header-with-certificate")
+		if !exceedsTwoThirds(powerOf(set, ok), set.total()) {
+			s.failf("", "accepted-header-with-weak-certificate", "proposed header %d/%d was accepted although its previous-commit proof holds valid precommits for (%d, round %d, %s) with power %s of %s (need > 2/3)",
+				h, e.PH.Round, h-1, pcp.Round, hx([]byte(parent)), powerOf(set, ok), set.total())
+			return
+		}
+	}
 	for _, ev := range s.detectCommits() {
 		s.label("commit-event:" + ev.Via)
 		if ev.Hash == "" {
